@@ -2,6 +2,7 @@
 from __future__ import annotations
 
 import ast
+import os
 import time
 import traceback
 
@@ -702,6 +703,12 @@ def explore(engine: Engine, contract: Contract, budget_s: float = 600.0):
             break
         except (PyRaise, PyReturn, PyBreak, PyContinue) as e:
             undecided.append(f"{contract.name}: control flow escaped the contract driver: {type(e).__name__}")
+        except (TypeError, AttributeError, KeyError, IndexError, ValueError, z3.Z3Exception) as e:
+            # the code under contract took a shape the contract's own bookkeeping does not understand (its hooks crashed):
+            # that path is open, not a verdict - the native stand-in is consulted
+            tb = traceback.extract_tb(e.__traceback__)[-1]
+            undecided.append(f"{contract.name}: the contract could not interpret this path ({type(e).__name__}: {e} at "
+                             f"{os.path.basename(tb.filename)}:{tb.lineno}) [path {'/'.join(st.labels[-6:])}]")
         try:
             st.solver.pop()
         except z3.Z3Exception:
